@@ -154,6 +154,71 @@ def early_abort_case(item):
     return res
 
 
+def window_case(item):
+    """The user makes the file while a redo command is on its way to build it: after redo has decided to build and written its
+    start-of-build record, before the script starts (a delay hook holds redo there).  The command in progress must leave the file
+    as the user made it (redo notices that something else wrote the target and refuses its own output)."""
+    import subprocess
+    import time
+    from .. import common, scen
+    _, out, prior, cmd, seed = item
+    body = {'d3': 'echo generated > "$3"', 'stdout': 'echo generated', 'none': 'true'}[out]
+    files = {'T.do': scen.TRACE_HDR + 'echo "S $1 $$ $PPID" >&9\n%s\necho "E $1 $$ 0" >&9\n' % body}
+    pj = scen.Project(files, 'c11w')
+    anoms = []
+    obs = dict(window_scenarios=1, files_made_inside_the_window=0)
+    tpath = os.path.join(pj.top, 'T')
+    try:
+        if prior == 'built-then-removed':
+            r0, _ = pj.run(['redo-ifchange', 'T'])
+            if r0.rc != 0:
+                return dict(verdict='inconclusive', why='prior build failed', sample=dict(item=list(item)))
+            if os.path.lexists(tpath):
+                os.unlink(tpath)
+        open(pj.trace, 'w').close()
+        env = pj.env(dict(REDO_VERIF_DELAY='before_job_start=900'))
+        p = subprocess.Popen([cmd, 'T'], cwd=pj.top, env=env, stdin=subprocess.DEVNULL, stdout=subprocess.PIPE, stderr=subprocess.STDOUT, start_new_session=True)
+        t0 = time.time()
+        while time.time() - t0 < 20 and b' job_prepared ' not in (common.read_file(pj.trace) or b'') and p.poll() is None:
+            time.sleep(0.005)
+        if p.poll() is not None or b' job_prepared ' not in (common.read_file(pj.trace) or b''):
+            try:
+                p.wait(timeout=30)
+            except subprocess.TimeoutExpired:
+                common.kill_session(p.pid)
+            return dict(verdict='inconclusive', why='the command never reached the window', sample=dict(item=list(item)))
+        common.write_file(tpath, b'made by hand while redo was starting\n')
+        st = os.lstat(tpath)
+        fp = (st.st_ino, st.st_size, st.st_mtime_ns, common.read_file(tpath))
+        obs['files_made_inside_the_window'] = 1
+        try:
+            outp = p.communicate(timeout=60)[0].decode('utf-8', 'replace')
+        except subprocess.TimeoutExpired:
+            common.kill_session(p.pid)
+            return dict(verdict='inconclusive', why='watchdog', sample=dict(item=list(item)))
+        ran = b'\nS T ' in (b'\n' + (common.read_file(pj.trace) or b''))
+        obs['scripts_that_ran_after_the_file_appeared'] = 1 if ran else 0
+        try:
+            st2 = os.lstat(tpath)
+            fp2 = (st2.st_ino, st2.st_size, st2.st_mtime_ns, common.read_file(tpath))
+        except OSError:
+            fp2 = None
+        if fp2 != fp:
+            anoms.append(dict(key='user-file-touched:made-before-the-script-started:%s' % out,
+                              what='%s T (script output: %s): the file the user made after redo had decided to build (and before the script started) is %s after the command (exit %s): %s'
+                                   % (cmd, out, 'gone' if fp2 is None else 'replaced or changed', p.returncode, outp[-200:].replace('\n', ' | '))))
+        elif p.returncode == 0 and ran and out != 'none':
+            anoms.append(dict(key='exit0-although-output-was-refused', what='%s T exits 0, its script ran, the user file is intact: what happened to the output?' % cmd))
+    finally:
+        pj.close()
+    res = dict(verdict='violated' if anoms else 'held', nontrivial=obs['files_made_inside_the_window'] == 1, shape=common.shash(list(item)),
+               sample=dict(kind='made-before-the-script-started', output=out, prior=prior, cmd=cmd), obs=obs, sets=dict(early_abort_causes=['window:' + out]))
+    if anoms:
+        res['violations'] = anoms
+        res['replay'] = dict(kind='window', item=list(item))
+    return res
+
+
 class Dispatch:
     def __init__(self, hist):
         self.hist = hist
@@ -161,6 +226,8 @@ class Dispatch:
     def __call__(self, item, **kw):
         if isinstance(item, (tuple, list)) and item and item[0] == 'early-abort':
             return early_abort_case(tuple(item))
+        if isinstance(item, (tuple, list)) and item and item[0] == 'window':
+            return window_case(tuple(item))
         return self.hist(item, **kw)
 
 
@@ -172,9 +239,9 @@ RULE = ('histories over programs whose target names are matched by specific rule
         'user-owned file unchanged by every command; the script of a user-owned name never runs (trace); dependents see the user\'s bytes '
         '(content oracle); after the user removes the file the next build produces it again; a hand-edited generated target named on '
         'the command line draws the "you modified it" warning. Early-abort layer: redo gives up on a target before its script starts (TMPDIR points nowhere / the rule\'s first line is not text), '
-        'the user makes the file by hand, the cause is repaired: later redo / redo-ifchange / consumer builds leave the file (inode, size, mtime, bytes) alone, the rule does not run, the consumer sees the user\'s bytes. Non-trivial: >=1 user write, >=2 builds, >=2 ownership changes. '
+        'the user makes the file by hand, the cause is repaired: later redo / redo-ifchange / consumer builds leave the file (inode, size, mtime, bytes) alone, the rule does not run, the consumer sees the user\'s bytes. Window layer: the user makes the file after redo has written its start-of-build record and before the script starts (delay hook before_job_start): the command in progress leaves the file (inode, size, mtime, bytes) as it is. Non-trivial: >=1 user write, >=2 builds, >=2 ownership changes. '
         'Distinct: (graph shape, op sequence).')
-ASSUME = ['harness edits always change mtime (and the size or inode)', 'ownership automaton none/redo/user of rvlib/model.py']
+ASSUME = ['window layer: only the command in progress is judged (afterwards redo cannot tell a file the user made during a build from one its own script wrote into $1, and treats both as a failed build of its own)', 'harness edits always change mtime (and the size or inode)', 'ownership automaton none/redo/user of rvlib/model.py']
 
 
 def main(tier):
@@ -186,6 +253,13 @@ def main(tier):
                 for later in (('all', 'consumer') if tier == 'quick' else ('redo', 'ifchange', 'consumer', 'all')):
                     for prior in ('never-built', 'built-then-removed'):
                         extra.append(('early-abort', cause, rule, later, prior, rep))
+    for rep in range(1 if tier == 'quick' else 6):
+        for out in ('d3', 'stdout', 'none'):
+            for prior in ('never-built', 'built-then-removed'):
+                for cmd in ('redo', 'redo-ifchange'):
+                    if out == 'none' and prior == 'built-then-removed' and cmd == 'redo-ifchange':
+                        continue        # a target without output that was built is up to date: nothing is started
+                    extra.append(('window', out, prior, cmd, rep))
     import random
     from .. import common, faults
     common.ensure_built()
@@ -200,6 +274,16 @@ def replay(path):
     if d['replay'].get('kind') == 'io-fault':
         from .. import faults
         return faults.replay(PROP, path)
+    if d['replay'].get('kind') == 'window':
+        from .. import common
+        common.ensure_built()
+        r = window_case(tuple(d['replay']['item']))
+        print(r.get('verdict'), r.get('violations') or r.get('why'))
+        common.cleanup_scratch()
+        if r.get('verdict') == 'violated':
+            print('VIOLATION property=%s replay=%s' % (PROP, path))
+            return 1
+        return 0
     if d['replay'].get('kind') == 'early-abort':
         from .. import common
         common.ensure_built()
